@@ -43,6 +43,9 @@ type fullSpec struct {
 	// into return entries (Addenda99, Category Return): a return batch next to forward batches
 	// with the same IAT header
 	IATReturn []int `json:"iatReturn,omitempty"`
+	// Fill: per batch of File.Batches, a number of synthesized entries replacing the listed ones
+	// (keeps the recipe of a batch with thousands of entries small)
+	Fill []int `json:"fill,omitempty"`
 }
 
 func aba8h(rtn string) string {
@@ -83,6 +86,22 @@ func buildFull(s fullSpec) (f *ach.File, err error) {
 			f, err = nil, fmt.Errorf("panic while building: %v", r)
 		}
 	}()
+	if len(s.Fill) > 0 {
+		fs := s.File
+		fs.Batches = append([]batchSpec(nil), fs.Batches...)
+		base := 0
+		for i := range fs.Batches {
+			if i < len(s.Fill) && s.Fill[i] > 0 {
+				var es []entrySpec
+				for j := 0; j < s.Fill[i]; j++ {
+					es = append(es, entrySpec{Seq: j%9998 + 1, Amount: 100 + j%1000, Tag: base + j, Debit: j%2 == 0})
+				}
+				fs.Batches[i].Entries = es
+				base += s.Fill[i]
+			}
+		}
+		s.File = fs
+	}
 	f, err = buildFile(s.File)
 	if err != nil {
 		return nil, err
@@ -333,7 +352,10 @@ func corrFull(args []string) {
 	cases := hx.Create(filepath.Join(*out, "cases.txt"))
 	impl := hx.Create(filepath.Join(*out, "impl.txt"))
 	specs := hx.Create(filepath.Join(*out, "specs.jsonl"))
+	orc := hx.Create(filepath.Join(*out, "full-oracle.jsonl"))
 	count, rejected, withOpts := 0, 0, 0
+	distinct := map[string]bool{}
+	var samples []string
 	dist := map[string]int{}
 	emit := func(s fullSpec) {
 		f, err := buildFull(s)
@@ -348,7 +370,13 @@ func corrFull(args []string) {
 		line := serializeFull(f)
 		// shape counters, measured on the built file
 		sigCats := map[string]map[int]bool{}
+		sigAdv := map[string]int{}
+		mixed, advOver := false, false
 		for _, ob := range observe(f) {
+			sigAdv[ob.Sig] += len(ob.Adv)
+			if sigAdv[ob.Sig] >= 9999 {
+				advOver = true
+			}
 			m := sigCats[ob.Sig]
 			if m == nil {
 				m = map[int]bool{}
@@ -369,13 +397,36 @@ func corrFull(args []string) {
 		for _, m := range sigCats {
 			if len(m) > 1 {
 				dist["files_mixed_category_same_signature"]++
+				mixed = true
 				break
 			}
 		}
 		res := flatten(f)
 		o := observeFull(res)
-		dist["outcome_"+strings.SplitN(o, " ", 2)[0]]++
+		class := strings.SplitN(o, " ", 2)[0]
+		dist["outcome_"+class]++
 		js, _ := json.Marshal(s)
+		// direct oracle on the whole function: a valid file must be flattened (C12_succeeds); the
+		// failures with a known cause carry the key of their known finding
+		if class != "OK" {
+			key := "flatten:full:error:" + strings.ToLower(class)
+			switch {
+			case mixed:
+				key = "flatten:error:mixed-category-same-header"
+			case advOver:
+				key = "flatten:error:adv-sequence-limit"
+			}
+			what := "FlattenBatches fails (" + class + ") on a valid file"
+			if res.err != nil {
+				what += ": " + cut(res.err.Error(), 160)
+			}
+			fj, _ := json.Marshal(map[string]interface{}{"kind": "fail", "key": key, "what": what, "case": s})
+			orc.Printf("%s\n", fj)
+		}
+		distinct[digest(line)] = true
+		if len(samples) < 3 {
+			samples = append(samples, cut(string(js), 300))
+		}
 		specs.Printf("%s\n", js)
 		cases.Printf("%s\n", line)
 		impl.Printf("%s\n", o)
@@ -407,6 +458,10 @@ func corrFull(args []string) {
 	cases.Close()
 	impl.Close()
 	specs.Close()
+	sj, _ := json.Marshal(map[string]interface{}{"kind": "summary", "evaluations": count, "distinct_nontrivial": len(distinct),
+		"rule": "distinct rendered case lines (file control, every batch header and entry with payload)", "distribution": dist, "samples": samples})
+	orc.Printf("%s\n", sj)
+	orc.Close()
 	dj, _ := json.Marshal(dist)
 	fmt.Printf("{\"cases\":%d,\"rejected\":%d,\"skipped_with_options\":%d,\"distribution\":%s}\n", count, rejected, withOpts, dj)
 }
@@ -419,7 +474,12 @@ func replayFull(path string) int {
 		return 2
 	}
 	var s fullSpec
-	if err := json.Unmarshal(raw, &s); err != nil {
+	var wrap struct {
+		Input *fullSpec `json:"input"`
+	}
+	if err := json.Unmarshal(raw, &wrap); err == nil && wrap.Input != nil && (len(wrap.Input.File.Batches) > 0 || wrap.Input.File.Aug != nil) {
+		s = *wrap.Input
+	} else if err := json.Unmarshal(raw, &s); err != nil {
 		fmt.Println(err)
 		return 2
 	}
@@ -428,7 +488,19 @@ func replayFull(path string) int {
 		fmt.Println("recipe does not build:", err)
 		return 2
 	}
-	fmt.Println("case:", serializeFull(f))
-	fmt.Println("impl:", observeFull(flatten(f)))
+	line := serializeFull(f)
+	if len(line) > 2000 {
+		line = line[:2000] + " ..."
+	}
+	fmt.Println("case:", line)
+	o := observeFull(flatten(f))
+	if len(o) > 2000 {
+		o = o[:2000] + " ..."
+	}
+	fmt.Println("impl:", o)
+	if !strings.HasPrefix(o, "OK") {
+		fmt.Println("FAIL: FlattenBatches does not succeed on this valid file")
+		return 1
+	}
 	return 0
 }
